@@ -48,6 +48,8 @@ def scripts(tier):
     """name -> list of actions: ('send', bytes) | ('close',) | ('hold',) (stay connected, silent)"""
     sc = {}
     sc["immediate-disconnect"] = [("close",)]
+    sc["reset-while-in-backlog"] = [("reset",)]
+    sc["garbage-then-reset"] = [("send", b"\xff\x00junk"), ("reset",)]
     sc["garbage-payload"] = [("send", R.frame(b"\xff\xfe\x00garbage\x99")), ("close",)]
     sc["random-bytes"] = [("send", bytes((i * 37 + 11) & 0xff for i in range(97))), ("close",)]
     sc["unknown-kind"] = [("send", R.frame(R.encode((9, 1, ())))), ("hold",)]
@@ -103,6 +105,11 @@ class Hostile(object):
                 elif act[0] == "close":
                     s.close()
                     return "closed"
+                elif act[0] == "reset":
+                    import struct
+                    s.setsockopt(simos._real_socket.SOL_SOCKET, simos._real_socket.SO_LINGER, struct.pack("ii", 1, 0))
+                    s.close()
+                    return "reset"
         except OSError as ex:
             return "error:%s" % ex.errno
         return "holding"
